@@ -38,7 +38,8 @@ TOKEN_RE = re.compile(r"""
   | (?P<life>'[A-Za-z_]\w*(?!'))
   | (?P<num>0x[0-9A-Fa-f_]+|\d[\d_]*(?:u8|u16|u32|u64|usize)?)
   | (?P<id>[A-Za-z_]\w*)
-  | (?P<op>::|=>|==|!=|<=|>=|&&|\|\||\+=|-=|->|\.\.|[{}()\[\];,.:<>=&|+\-*/?!\#])
+  | (?P<chr>'(?:\\.|[^'\\])')
+  | (?P<op>::|=>|==|!=|<=|>=|&&|\|\||\+=|-=|->|\.\.|[{}()\[\];,.:<>=&|+\-*/?!\#%^@$~])
 """, re.X)
 
 
@@ -174,6 +175,17 @@ def parse_postfix(p, no_struct):
             e = ("try", e)
         elif p.at("("):
             e = ("call", e, parse_args(p))
+        elif p.at("["):
+            p.next()
+            lo = None if p.at("..") else parse_expr(p)
+            if p.at(".."):
+                p.next()
+                hi = None if p.at("]") else parse_expr(p)
+                p.eat("]")
+                e = ("slice", e, lo, hi)
+            else:
+                p.eat("]")
+                e = ("index", e, lo)
         elif p.at(".") and p.peek(1) != ".":
             p.next()
             name = p.next()
@@ -211,8 +223,22 @@ def parse_primary(p, no_struct):
             return ("tuple", items)
         p.eat(")")
         return ("paren", e)
-    if v == "|":  # closure: only `|x| ..` forms we do not need → refuse
-        raise TranslateError("sign.rs: closures are outside the translated subset")
+    if v == "|":  # closure `|pat, ..| body`
+        p.next()
+        params = []
+        while not p.at("|"):
+            if p.at("&"):
+                p.next()
+            params.append(parse_pattern(p))
+            if p.at(","):
+                p.next()
+        p.eat("|")
+        return ("closure", params, parse_expr(p))
+    if v == "match":
+        p.next()
+        scrut = parse_expr(p, no_struct=True)
+        st = _parse_match_body(p, scrut)
+        return ("matchexpr", st[1], st[2])
     if k == "id" and v in ("true", "false"):
         p.next()
         return ("bool", v == "true")
@@ -245,6 +271,20 @@ def parse_primary(p, no_struct):
 # ---------------------------------------------------------------------------------------------
 
 def parse_pattern(p):
+    if p.at("&"):
+        p.next()
+        return parse_pattern(p)
+    if p.at("ref"):
+        p.next()
+        if p.at("mut"):
+            p.next()
+        return parse_pattern(p)
+    if p.kind() == "num":
+        v = p.next()
+        m = re.fullmatch(r"(0x[0-9A-Fa-f_]+|\d[\d_]*)(u8|u16|u32|u64|usize)?", v)
+        return ("pnum", int(m.group(1).replace("_", ""), 0))
+    if p.kind() == "str":
+        return ("pstr", p.next())
     if p.at("_"):
         p.next()
         return ("pwild",)
@@ -293,6 +333,45 @@ def parse_block(p):
     return stmts
 
 
+def _parse_match_body(p, scrut):
+    p.eat("{")
+    arms = []
+    while not p.at("}"):
+        pats = [parse_pattern(p)]
+        while p.at("|"):
+            p.next()
+            pats.append(parse_pattern(p))
+        guard = None
+        if p.at("if"):
+            p.next()
+            guard = parse_expr(p, no_struct=True)
+        p.eat("=>")
+        if p.at("{"):
+            body = ("block", parse_block(p))
+            if p.at(","):
+                p.next()
+        elif p.at("return") or p.at("break"):
+            kw = p.next()
+            if kw == "break":
+                body = ("block", [("break",)])
+            else:
+                body = ("block", [("return", parse_expr(p))])
+            if p.at(","):
+                p.next()
+        else:
+            be = parse_expr(p)
+            if p.at("="):
+                p.next()
+                body = ("block", [("assignto", be, parse_expr(p))])
+            else:
+                body = ("expr", be)
+            if p.at(","):
+                p.next()
+        arms.append((pats, guard, body))
+    p.eat("}")
+    return ("match", scrut, arms)
+
+
 def parse_stmt(p):
     v = p.peek()
     if v == "let":
@@ -332,39 +411,22 @@ def parse_stmt(p):
     if v == "match":
         p.next()
         scrut = parse_expr(p, no_struct=True)
-        p.eat("{")
-        arms = []
-        while not p.at("}"):
-            pats = [parse_pattern(p)]
-            while p.at("|"):
-                p.next()
-                pats.append(parse_pattern(p))
-            guard = None
-            if p.at("if"):
-                p.next()
-                guard = parse_expr(p, no_struct=True)
-            p.eat("=>")
-            if p.at("{"):
-                body = ("block", parse_block(p))
-                if p.at(","):
-                    p.next()
-            elif p.at("return") or p.at("break"):
-                kw = p.next()
-                if kw == "break":
-                    body = ("block", [("break",)])
-                else:
-                    body = ("block", [("return", parse_expr(p))])
-                if p.at(","):
-                    p.next()
-            else:
-                body = ("expr", parse_expr(p))
-                if p.at(","):
-                    p.next()
-            arms.append((pats, guard, body))
-        p.eat("}")
+        st = _parse_match_body(p, scrut)
         if p.at(";"):
             p.next()
-        return ("match", scrut, arms)
+        return st
+    if v == "if" and p.peek(1) == "let":
+        p.next()
+        p.next()
+        pat = parse_pattern(p)
+        p.eat("=")
+        scrut = parse_expr(p, no_struct=True)
+        then = parse_block(p)
+        els = None
+        if p.at("else"):
+            p.next()
+            els = [parse_stmt(p)] if p.at("if") else parse_block(p)
+        return ("iflet", pat, scrut, then, els)
     if v == "if":
         p.next()
         cond = parse_expr(p, no_struct=True)
@@ -399,18 +461,30 @@ def parse_stmt(p):
         p.eat(";")
         return ("addassign", name, e)
     e = parse_expr(p)
+    if p.at("=") :
+        p.next()
+        rhs = parse_expr(p)
+        p.eat(";")
+        return ("assignto", e, rhs)
+    if p.at("+="):
+        p.next()
+        rhs = parse_expr(p)
+        p.eat(";")
+        return ("addassignto", e, rhs)
     if p.at(";"):
         p.next()
         return ("expr", e, True)
     return ("expr", e, False)
 
 
-def parse_methods(src):
+def parse_methods(src, impl_re=r"\bimpl\s+Sign\s*\{"):
     """{name: (params [(name, type)], return type text, body stmts)} of `impl Sign { .. }`"""
-    m = re.search(r"\bimpl\s+Sign\s*\{", src)
+    m = re.search(impl_re, src)
     if not m:
-        raise TranslateError("sign.rs: `impl Sign` not found")
-    toks = tokenize(src[m.end() - 1:])
+        raise TranslateError("impl block %s not found" % impl_re)
+    from translate import matching
+    end = matching(src, m.end() - 1)
+    toks = tokenize(src[m.end() - 1:end])
     p = P(toks)
     p.eat("{")
     methods = {}
